@@ -1,0 +1,26 @@
+// SPDX-FileCopyrightText: 2023 The Pion community <https://pion.ly>
+// SPDX-License-Identifier: MIT
+
+//go:build verif
+
+package webrtc
+
+// Verification hooks (build tag "verif"). verifEvent reports a state change at
+// its linearization point; verifYield marks a point where a test scheduler may
+// hold the calling goroutine. Both are no-ops unless a test installs a hook.
+var (
+	verifEventHook func(point string, obj any, args ...any)
+	verifYieldHook func(point string, obj any, args ...any)
+)
+
+func verifEvent(point string, obj any, args ...any) {
+	if h := verifEventHook; h != nil {
+		h(point, obj, args...)
+	}
+}
+
+func verifYield(point string, obj any, args ...any) {
+	if h := verifYieldHook; h != nil {
+		h(point, obj, args...)
+	}
+}
